@@ -132,7 +132,7 @@ func checkCapture(c *Ctx, p *GoProg, fd *ast.FuncDecl, loop ast.Stmt, gs *ast.Go
 		}
 		// private to the iteration: declared in the loop body, or a loop variable (per-iteration since go 1.22)
 		if o.Pos() >= loop.Pos() && o.Pos() < loop.End() {
-			if o.Pos() >= body.Pos() || p.GoVersionAtLeast(1, 22) {
+			if o.Pos() >= body.Pos() || p.FileGoVersionAtLeast(loop, 1, 22) {
 				return true
 			}
 		}
